@@ -97,7 +97,7 @@ SPECS = {
   "passes": [codec("^TestC14Unit$", name="unit"), fsm("^TestC14$", name="wire")],
   "rule": "pass unit (newOpenMessage+encode through the export shim): local AS boundary set {1,2,23455..23457,65534..65537,42e8.., 2^32-1} and random, hold times {0,3,4,9,90,180,255,256,65534,65535} and random, random router ids, "
           "plugin capability lists of 0..40 entries (codes 0..255 incl. 65, value lengths 0..300, totals aimed at the 243..262 byte boundary); family limit enumerates every single-capability value length 0..300 and two-capability sums 240..262. "
-          "pass wire (Engine V): same generator, inbound and outbound connections; the first message seen by the remote is parsed by the independent strict parser and compared with internal/ref.ExpectOpen. "
+          "pass wire (Engine V): family mapped-id: router ids in IPv4-mapped IPv6 form are either refused by NewServer or reach the wire as that IPv4 address; family wire: same generator, inbound and outbound connections, a third of the cases also check the OPEN of the peer's second connection after a session in which the remote proposed a smaller hold time; the first message seen by the remote is parsed by the independent strict parser and compared with internal/ref.ExpectOpen. "
           "distinct_nontrivial = distinct (representable, AS>65535, capability count class, hold 0, direction, trace) cells.",
   "exhaustive_note": "family limit (value length 0..300) is enumerated completely",
   "assumptions": ENGINE_V + ["expected-OPEN builder internal/ref/open.go (Appendix A.2); representable = every value <= 255 bytes and all capabilities (incl. the implicit 4-octet-AS one) <= 253 bytes, i.e. one parameter inside a 255-byte optional parameters field"],
